@@ -494,8 +494,9 @@ class MultiTrackLargeVocabularyNotelikeTokeniser:
                 token += f"{TokenisationPrefixes.VALUE.value}_{parts.pop(0):02}-"
 
             if self.flag_fuse_velocity:
-                token += f"{TokenisationPrefixes.VELOCITY.value}_{parts.pop(0):03}"
+                token += f"{TokenisationPrefixes.VELOCITY.value}_{parts.pop(0):03}-"
 
+            token = token[:-1]
             self.dictionary[token] = self.dictionary_size
             self._dictionary_size += 1
 
